@@ -282,4 +282,34 @@ theorem foldW_cause {α : Type} {w : Enc → α → Except EErr Enc} {size : α 
     (fun h => ⟨o, hm, h⟩) (fun h => ⟨o, hm, h⟩) ?_
   rw [hl]; exact sum_map_le_of_append size pre o post
 
+/-- exact output of the loop when every element appends a fixed octet string -/
+theorem foldW_put {α : Type} {w : Enc → α → Except EErr Enc} {wire : α → Bytes}
+    (hw : ∀ e e' o, w e o = .ok e' → e' = e.put (wire o)) :
+    ∀ (l : List α) (e e' : Enc), foldW w e l = .ok e' → e' = e.put (l.flatMap wire) := by
+  intro l
+  induction l with
+  | nil =>
+    intro e e' h
+    simp [foldW] at h; subst h
+    simp [put_nil]
+  | cons o r ih =>
+    intro e e' h
+    unfold foldW at h
+    cases h1 : w e o with
+    | error err => simp [h1] at h
+    | ok e1 =>
+      simp only [h1] at h
+      rw [ih e1 e' h, hw e e1 o h1, put_put]
+      simp
+
+theorem length_le_flatMap {α : Type} (f : α → Bytes) {l : List α} {o : α} (h : o ∈ l) :
+    (f o).length ≤ (l.flatMap f).length := by
+  induction l with
+  | nil => simp at h
+  | cons x r ih =>
+    simp only [List.flatMap_cons, List.length_append]
+    rcases List.mem_cons.mp h with rfl | h
+    · omega
+    · have := ih h; omega
+
 end EncLim
